@@ -303,12 +303,14 @@ def group_cases(tier):
     return out
 
 
-def labels(runs_by_level, prefix="G"):
+def labels(runs_by_level, prefix="G", recur=0):
+    """recur=m>0: run k is labelled k mod m, so a value comes back after other values (A,B,A,...)"""
     cols = []
     for lvl, runs in enumerate(runs_by_level):
         vals = []
         for k, ln in enumerate(runs):
-            vals += [f"{prefix}{lvl}{'v' if prefix == 'G' else 'x'}{k}"] * ln
+            kk = k % recur if recur else k
+            vals += [f"{prefix}{lvl}{'v' if prefix == 'G' else 'x'}{kk}"] * ln
         cols.append(vals)
     return cols
 
@@ -331,11 +333,15 @@ def run_shard(desc, ctx):
                         if mode == "subline" and len(runs) > 1:
                             continue
                         ctx.count("enumerated_group_cases")
+                        # group values may come back after other values (the quantifier says ALL key sequences)
+                        recur = 0 if len(runs) > 1 else (nrow % 3 if nrow % 3 != 1 else 0)
+                        if recur:
+                            ctx.count("enumerated_recurring_label_cases")
                         if mode == "subline":
-                            g = {"page_by": [], "subline_by": labels(runs, "SB")}
+                            g = {"page_by": [], "subline_by": labels(runs, "SB", recur)}
                             extra = {}
                         else:
-                            g = {"page_by": labels(runs)}
+                            g = {"page_by": labels(runs, "G", recur)}
                             extra = {} if mode == "page_by" else {"new_page": True}
                             if mode == "page_by_new_first":
                                 extra["pageby_row"] = "first_row"
@@ -359,9 +365,16 @@ def run_shard(desc, ctx):
                                             maxruns=rng.choice([2, 3, 5]), reuse_inner=False)
                     colsv = [[k[l] for k in keys] for l in range(len(keys[0]))]
 
+                    recur = rng.choice([0, 0, 2, 3])
+
                     def ren(vals, pre, lvl):
                         m = {}
-                        return [m.setdefault(v, f"{pre}{lvl}{'v' if pre == 'G' else 'x'}{len(m)}") for v in vals]
+                        out = []
+                        for v in vals:
+                            if v not in m:
+                                m[v] = len(m) % recur if recur else len(m)
+                            out.append(f"{pre}{lvl}{'v' if pre == 'G' else 'x'}{m[v]}")
+                        return out
                     if mode == "subline":
                         g = {"page_by": [], "subline_by": [ren(colsv[0], "SB", 0)]}
                     elif mode == "subline_page_by":
